@@ -272,6 +272,9 @@ class VariantInterval(AbstractFeatureInterval):
             new_loc = self._lift_over_chromosome_location_compound_interval(location)
         else:
             raise NotImplementedError("Location type {} not supported".format(str(type(location))))
+        # the location was deleted entirely by this variant
+        if new_loc is EmptyLocation():
+            return new_loc
         # this lifts the chromosome coordinates back onto chunk coordinates, if we are chunk-relative
         if self.has_sequence:
             return self.liftover_location_to_seq_chunk_parent(new_loc, self.parent_with_alternative_sequence)
@@ -530,11 +533,18 @@ class VariantIntervalCollection(AbstractFeatureIntervalCollection):
         if isinstance(location, SingleInterval):
             for variant in self.variant_intervals:
                 location = variant._lift_over_chromosome_location_single_interval(location)
+                if location is EmptyLocation():
+                    break
         elif isinstance(location, CompoundInterval):
             for variant in self.variant_intervals:
                 location = variant._lift_over_chromosome_location_compound_interval(location)
+                if location is EmptyLocation():
+                    break
         else:
             raise ValueError("Invalid Location type passed")
+        # the location was deleted entirely by these variants
+        if location is EmptyLocation():
+            return location
         if self.has_sequence:
             return self.liftover_location_to_seq_chunk_parent(location, self.parent_with_alternative_sequence)
         else:
